@@ -129,7 +129,7 @@ def m1_merge(S):
     fn2 = cands[0]
     ctx2 = S.ctx()
     calls = []
-    ctx2.env = [(E.rx(r"MergeHeaderDigest as Merge>::merge$"), lambda ex, c, a, d: (calls.append([deref(ex, x).name for x in a]), OpaqueV("merged", d))[1])]
+    ctx2.env = [(E.rx(r"MergeHeaderDigest as .*Merge>::merge$|MergeHeaderDigest::merge$"), lambda ex, c, a, d: (calls.append([deref(ex, x).name for x in a]), OpaqueV("merged", d))[1])]
     ps2 = S.run(ctx2, fn2, [ctx2.ref_to(OpaqueV("a", "HeaderDigest")), ctx2.ref_to(OpaqueV("b", "HeaderDigest"))])
     S.prove(ctx2, ob, "merge_peaks_swaps_operands", [], bool(calls and all(c == ["b", "a"] for c in calls)))
 
